@@ -3,6 +3,12 @@
 import json, os
 HERE = os.path.dirname(os.path.abspath(__file__))
 CLAIMED = {
+ 'C06': ('proof', 'The Emit cell is interpreted with its descriptor loop summarised by one symbolic iteration k (affine closed forms i=k, offset=14k verified inductively, bounded by the MTU-derived capacity). Every iteration variant is checked: pause origin and ordering, addresses, kind, real source, ACK exactly in the last iteration with the Emit sequence number and mapper addresses; n frames in order follow by induction.',
+         'clang AST, lltdsa engine (inductive loop summary), port contract',
+         'abstract interpretation with inductive loop summary; per-iteration effect/origin checks', '4 (C06)'),
+ 'C10': ('other', 'Decides the structural clause of C10 - emitting and observing half agree on the frame format: the observer filter field and recorded identity are extracted from the interpreted Probe/Train cell and every Probe/Train the Emit cell can transmit must carry the descriptor destination / own address at exactly those offsets with a (ToS, opcode) reaching the observer. Network delivery and end-to-end histories are not decided (necessary condition only).',
+         'clang AST, lltdsa engine; mapper names the observing station as descriptor destination; frames delivered unmodified',
+         'sibling agreement by origin analysis of both halves', '4 (C10)'),
  'C02': ('proof', 'Every send_frame effect reachable in any of the 65 536 (ToS, opcode) cells, on every path including fault paths, is examined: cell (solicited only), count, header byte origins, per-opcode structure (Hello TLV chain parsed over symbolic offsets: host id first, legal lengths, no duplicate, end marker last), every byte below the length determined (zero fill / initialised store), length within the buffer sized from the MTU and Hello <= 576.',
          'clang AST, lltdsa engine, oracle TLV table, port contract; QueryResp count field vs list length relies on the count=length invariant (checked structurally under C07)',
          'abstract interpretation (effect trace + buffer snapshots with byte origins) over the dispatch matrix; symbolic parse of transmitted buffers', '4 (C02)'),
